@@ -210,60 +210,386 @@ AMPLIFIERS = (("_extract_png_images_from_bytes/amp-bounded#carve", amp_png), ("_
               ("mbox_email_extractor.py::*/amp-bounded#no-self-suffix", amp_mbox), ("policy#xml-parsed", amp_xml))
 
 
-def limits():
-    import sharepoint2text
+def _got(fn):
     from sharepoint2text.parsing.exceptions import ExtractionFileTooLargeError
-    with tempfile.TemporaryDirectory() as d:
-        p = os.path.join(d, "a.txt")
-        open(p, "wb").write(b"x" * 100)
-        for lim, want in ((99, "too-large"), (100, "ok"), (101, "ok"), (0, "ok"), (-5, "ok"), (1, "too-large")):
-            try:
-                list(sharepoint2text.read_file(p, max_file_size=lim))
-                got = "ok"
-            except ExtractionFileTooLargeError:
-                got = "too-large"
-            except Exception as e:  # noqa
-                got = type(e).__name__
-            if got != want:
-                return {"target": "sharepoint2text/__init__.py::read_file", "inputs": {"file_size": 100, "max_file_size": lim}, "expected": want, "observed": got}
-    from sharepoint2text.parsing.extractors import archive_extractor as ae
-    repo = os.environ.get("VERIF_REPO", "/repo")
-    data = open(os.path.join(repo, "sharepoint2text/tests/resources/archives/test_archive.7z"), "rb").read()
-    old = ae.MAX_7Z_FILE_SIZE
     try:
-        for lim, want in ((len(data) - 1, "too-large"), (len(data), "ok"), (len(data) + 1, "ok")):
-            ae.MAX_7Z_FILE_SIZE = lim
+        fn()
+        return "ok"
+    except ExtractionFileTooLargeError:
+        return "too-large"
+    except Exception as e:  # noqa
+        return type(e).__name__
+
+
+def limits_read_file():
+    """read_file: exact boundary at several file sizes; the size that counts is the size of what open() reads -- a symbolic link to
+    a large file, a relative path, a str and a Path argument."""
+    import pathlib
+    import sharepoint2text
+    with tempfile.TemporaryDirectory() as d:
+        for size in (100, 5000, 70000):
+            p = os.path.join(d, f"a{size}.txt")
+            with open(p, "wb") as fh:
+                fh.write(b"x" * size)
+            link = os.path.join(d, f"link{size}.txt")
             try:
-                list(ae.read_archive(io.BytesIO(data), "t.7z"))
-                got = "ok"
-            except ExtractionFileTooLargeError:
-                got = "too-large"
-            except Exception as e:  # noqa
-                got = type(e).__name__
-            if got != want:
-                return {"target": "archive_extractor.py::_extract_from_7z_optimized", "inputs": {"archive_size": len(data), "limit": lim}, "expected": want, "observed": got}
-    finally:
-        ae.MAX_7Z_FILE_SIZE = old
+                os.symlink(p, link)
+            except OSError:
+                link = None
+            cases = [(size - 1, "too-large"), (size, "ok"), (size + 1, "ok"), (0, "ok"), (-5, "ok"), (1, "too-large"), (size // 2, "too-large")]
+            for how, arg in (("path", p), ("pathlib.Path", pathlib.Path(p)), ("symlink to the file", link)):
+                if arg is None:
+                    continue
+                for lim, want in cases:
+                    opened = []
+                    real_open, real_io_open = builtins.open, io.open
+
+                    def spy(file, *a, **k):
+                        try:
+                            if os.path.realpath(os.fspath(file)) == os.path.realpath(p):
+                                opened.append(str(file))
+                        except TypeError:
+                            pass
+                        return real_open(file, *a, **k)
+                    builtins.open = io.open = spy
+                    try:
+                        got = _got(lambda: list(sharepoint2text.read_file(arg, max_file_size=lim)))
+                    finally:
+                        builtins.open, io.open = real_open, real_io_open
+                    if got == want == "too-large" and opened:
+                        return {"target": "sharepoint2text/__init__.py::read_file", "inputs": {"file_size": size, "max_file_size": lim, "path_is": how},
+                                "expected": "refused before the file is opened", "observed": f"the file was opened {len(opened)} time(s) before ExtractionFileTooLargeError"}
+                    if got != want:
+                        return {"target": "sharepoint2text/__init__.py::read_file",
+                                "inputs": {"file_size": size, "max_file_size": lim, "path_is": how,
+                                           **({"link_entry_size": os.lstat(link).st_size} if how.startswith("symlink") else {})},
+                                "expected": want, "observed": got}
+        # default limit is the documented 100 MB (sparse file: nothing is written)
+        big = os.path.join(d, "big.txt")
+        try:
+            with open(big, "wb") as fh:
+                fh.truncate(100 * 1024 * 1024 + 1)
+            got = _got(lambda: next(iter(sharepoint2text.read_file(big)), None))
+            if got != "too-large":
+                return {"target": "sharepoint2text/__init__.py::read_file", "inputs": {"file_size": 100 * 1024 * 1024 + 1, "max_file_size": "default"},
+                        "expected": "too-large", "observed": got}
+        except OSError:
+            pass
     return None
 
 
+def _sevenzip_spy():
+    """Counts SevenZipFile constructions (whatever the import style of the caller)."""
+    from sharepoint2text.parsing.extractors.util import sevenzip
+    cls = sevenzip.SevenZipFile
+    orig = cls.__init__
+    count = [0]
+
+    def init(self, *a, **k):
+        count[0] += 1
+        return orig(self, *a, **k)
+    cls.__init__ = init
+    return count, (lambda: setattr(cls, "__init__", orig))
+
+
+def limits_7z():
+    """7z: an archive above MAX_7Z_FILE_SIZE is refused -- whatever it contains (members all filtered out, garbage after the
+    signature) and before it is parsed; an archive of exactly the limit is accepted."""
+    import dataclasses
+    from sharepoint2text.parsing.extractors import archive_extractor as ae
+    repo = os.environ.get("VERIF_REPO", "/repo")
+    data = open(os.path.join(repo, "sharepoint2text/tests/resources/archives/test_archive.7z"), "rb").read()
+    garbage = data[:6] + bytes((i * 37 + 11) & 255 for i in range(len(data) - 6))
+    old, old_cfg = ae.MAX_7Z_FILE_SIZE, ae._config
+    count, undo = _sevenzip_spy()
+    early = None
+    try:
+        for label, blob, cfg in (("fixture", data, old_cfg), ("fixture, every member above the per-member limit", data, dataclasses.replace(old_cfg, max_memory_size=1)),
+                                 ("7z signature followed by garbage", garbage, old_cfg)):
+            ae._config = cfg
+            for lim, want in ((len(blob) - 1, "too-large"), (len(blob), "ok"), (len(blob) + 1, "ok"), (1, "too-large")):
+                if want == "ok" and label.startswith("7z signature"):
+                    continue
+                ae.MAX_7Z_FILE_SIZE = lim
+                count[0] = 0
+                got = _got(lambda: list(ae.read_archive(io.BytesIO(blob), "t.7z")))
+                if got != want:
+                    return {"target": "archive_extractor.py::_extract_from_7z_optimized", "inputs": {"archive": label, "archive_size": len(blob), "limit": lim},
+                            "expected": want, "observed": got}
+                if want == "too-large" and count[0] and early is None:
+                    early = {"target": "archive_extractor.py::_extract_from_7z_optimized", "inputs": {"archive": label, "archive_size": len(blob), "limit": lim},
+                            "expected": "refused before the archive is opened and its header parsed",
+                            "observed": f"SevenZipFile was constructed {count[0]} time(s) before ExtractionFileTooLargeError"}
+    finally:
+        undo()
+        ae.MAX_7Z_FILE_SIZE, ae._config = old, old_cfg
+    return early
+
+
+def limit_values():
+    from sharepoint2text.parsing.extractors import archive_extractor as ae
+    want = {"MAX_7Z_FILE_SIZE": 100 * 1024 * 1024, "MAX_MEMORY_SIZE": 10 * 1024 * 1024, "MAX_ARCHIVE_FILE_SIZE": 50 * 1024 * 1024}
+    got = {k: getattr(ae, k, None) for k in want}
+    got["_config.max_memory_size"] = getattr(getattr(ae, "_config", None), "max_memory_size", None)
+    want["_config.max_memory_size"] = want["MAX_MEMORY_SIZE"]
+    if got != want:
+        return {"target": "archive_extractor.py limits", "inputs": {}, "expected": want, "observed": got}
+    return None
+
+
+def limits():
+    return limits_read_file() or limits_7z() or limit_values()
+
+
+def tar_links(limit=1000):
+    """tar: a link member declares size 0 and extractfile() returns its target's data -- a member above the per-member limit must
+    not come back through a hard link / symbolic link entry that points at it."""
+    import dataclasses
+    import tarfile
+    from sharepoint2text.parsing.extractors import archive_extractor as ae
+    big = ("B" * (limit * 3) + "\n").encode()
+    for kind, ltype in (("hard link", tarfile.LNKTYPE), ("symbolic link", tarfile.SYMTYPE)):
+        for order in ("target first", "link first"):
+            buf = io.BytesIO()
+            with tarfile.open(fileobj=buf, mode="w") as t:
+                def add_big():
+                    ti = tarfile.TarInfo("big.txt")
+                    ti.size = len(big)
+                    t.addfile(ti, io.BytesIO(big))
+                def add_link():
+                    li = tarfile.TarInfo("link.txt")
+                    li.type, li.linkname, li.size = ltype, "big.txt", 0
+                    t.addfile(li)
+                if order == "target first":
+                    add_big(); add_link()
+                else:
+                    add_link(); add_big()
+                ti = tarfile.TarInfo("small.txt")
+                ti.size = 6
+                t.addfile(ti, io.BytesIO(b"small\n"))
+            old = ae._config
+            ae._config = dataclasses.replace(old, max_memory_size=limit)
+            try:
+                try:
+                    res = list(ae.read_archive(io.BytesIO(buf.getvalue()), "t.tar"))
+                except Exception:  # noqa
+                    continue
+            finally:
+                ae._config = old
+            over = [r for r in res if len(r.get_full_text()) > limit]
+            if over:
+                return {"reproduced": True, "target": "archive_extractor.py::_extract_from_tar_optimized",
+                        "inputs": {"archive": "tar", "members": [("big.txt", len(big)), ("link.txt", f"{kind} -> big.txt, declared size 0"), ("small.txt", 6)],
+                                   "order": order, "max_memory_size": limit},
+                        "expected": f"no result from content larger than {limit} bytes",
+                        "observed": f"a result with {len(over[0].get_full_text())} characters: the oversize member was read through the link entry"}
+    return None
+
+
+def member_boundary(limit=1000):
+    """zip / tar: a member of exactly the per-member limit is extracted, a member one byte above it is not."""
+    import dataclasses
+    import sys as _sys
+    _sys.path.insert(0, os.path.dirname(os.path.abspath(__file__)))
+    import archive_probe
+    from sharepoint2text.parsing.extractors import archive_extractor as ae
+
+    def body(tag, n):
+        return (tag + "." * (n - len(tag) - 1) + "\n").encode()
+    members = [("below.txt", body("BELOW", limit - 1)), ("at.txt", body("ATLIMIT", limit)), ("over.txt", body("OVER", limit + 1)), ("twice.txt", body("TWICE", 2 * limit))]
+    old = ae._config
+    ae._config = dataclasses.replace(old, max_memory_size=limit)
+    try:
+        for kind, data, name in (("zip", archive_probe._zip(members), "t.zip"), ("zip-stored", archive_probe._zip(members, zipfile.ZIP_STORED), "t.zip"),
+                                 ("tar", archive_probe._tar(members), "t.tar")):
+            try:
+                texts = [r.get_full_text() for r in ae.read_archive(io.BytesIO(data), name)]
+            except Exception:  # noqa
+                continue
+            seen = {tag for tag in ("BELOW", "ATLIMIT", "OVER", "TWICE") if any(t.startswith(tag) for t in texts)}
+            if seen != {"BELOW", "ATLIMIT"}:
+                return {"reproduced": True, "target": "archive_extractor.py::read_archive",
+                        "inputs": {"archive": kind, "members": [(n, len(d)) for n, d in members], "max_memory_size": limit},
+                        "expected": "results for the members of limit-1 and limit bytes only", "observed": f"results for {sorted(seen)}"}
+    finally:
+        ae._config = old
+    return None
+
+
+def entry_limit(limit=500):
+    """_process_archive_entry: an entry above MAX_ARCHIVE_FILE_SIZE is not handed to an extractor (the per-member limit is above it)."""
+    from sharepoint2text.parsing.extractors import archive_extractor as ae
+    old = ae.MAX_ARCHIVE_FILE_SIZE
+    ae.MAX_ARCHIVE_FILE_SIZE = limit
+    try:
+        big = ("E" * (limit * 4) + "\n").encode()
+        fn = getattr(ae, "_process_archive_entry", None)
+        outs = []
+        if fn is not None:
+            try:
+                outs = list(fn("big.txt", big, None, "big.txt"))
+            except Exception:  # noqa
+                outs = []
+        if not outs:
+            buf = io.BytesIO()
+            with zipfile.ZipFile(buf, "w", zipfile.ZIP_STORED) as z:
+                z.writestr("small.txt", "small\n")
+                z.writestr("big.txt", big)
+            try:
+                outs = [r for r in ae.read_archive(io.BytesIO(buf.getvalue()), "t.zip")]
+            except Exception:  # noqa
+                outs = []
+        over = [r for r in outs if len(r.get_full_text()) > limit]
+        if over:
+            return {"reproduced": True, "target": "archive_extractor.py::_process_archive_entry",
+                    "inputs": {"entry": "big.txt", "entry_size": len(big), "MAX_ARCHIVE_FILE_SIZE": limit},
+                    "expected": "the entry is skipped", "observed": f"extracted: a result with {len(over[0].get_full_text())} characters"}
+    finally:
+        ae.MAX_ARCHIVE_FILE_SIZE = old
+    return None
+
+
+# ------------------------------------------------- ODS / ODF repeat classes --
+def _cells_and_rows(data):
+    from sharepoint2text.parsing.extractors.open_office.ods_extractor import read_ods
+    r = list(read_ods(io.BytesIO(data), "a.ods"))[0]
+    return sum(len(row) for s in r.sheets for row in s.data), sum(len(s.data) for s in r.sheets), len(r.get_full_text())
+
+
+def _rep(attr, n):
+    return f'{attr}="{n}"'
+
+
+EMPTY = '<table:table-cell {a}/>'
+REPEAT_CLASSES = (
+    # (class, known finding that records it or None, rows builder)
+    ("non-empty cell x number-columns-repeated", "F11-cell-repeat",
+     lambda n: f'<table:table-row>{cell("x", _rep("table:number-columns-repeated", n))}</table:table-row>'),
+    ("non-empty row x number-rows-repeated", "F11-row-repeat",
+     lambda n: f'<table:table-row {_rep("table:number-rows-repeated", n)}>{cell("x")}</table:table-row>'),
+    ("text:s text:c", "F11-text-s",
+     lambda n: f'<table:table-row><table:table-cell office:value-type="string"><text:p>a<text:s text:c="{n}"/>b</text:p></table:table-cell></table:table-row>'),
+    ("empty cells x number-columns-repeated followed by a value", None,
+     lambda n: f'<table:table-row>{EMPTY.format(a=_rep("table:number-columns-repeated", n))}{cell("x")}</table:table-row>'),
+    ("value followed by empty cells x number-columns-repeated", None,
+     lambda n: f'<table:table-row>{cell("x")}{EMPTY.format(a=_rep("table:number-columns-repeated", n))}</table:table-row><table:table-row>{cell("y")}</table:table-row>'),
+    ("two runs of empty cells around a value", None,
+     lambda n: f'<table:table-row>{EMPTY.format(a=_rep("table:number-columns-repeated", n))}{cell("x")}{EMPTY.format(a=_rep("table:number-columns-repeated", n))}{cell("y")}</table:table-row>'),
+    ("empty row x number-rows-repeated followed by a row with a value", None,
+     lambda n: f'<table:table-row {_rep("table:number-rows-repeated", n)}>{EMPTY.format(a="")}</table:table-row><table:table-row>{cell("x")}</table:table-row>'),
+    ("empty cells x columns-repeated in an empty row x rows-repeated, then a value", None,
+     lambda n: f'<table:table-row {_rep("table:number-rows-repeated", 400)}>{EMPTY.format(a=_rep("table:number-columns-repeated", n // 100))}</table:table-row>'
+               f'<table:table-row>{cell("x")}</table:table-row>'),
+)
+
+
+def repeat_classes(known_for_obligation, recorded):
+    """Runs the repeat-attribute document classes.  `known_for_obligation`: finding ids recorded for the obligation under replay (their
+    classes are run first: a recorded defect that still reproduces is reported so that the known-finding rule can cover it);
+    otherwise only the classes that no recorded finding describes are searched: amplification there is new."""
+    def run(label, build, n):
+        data = ods(build(n))
+        try:
+            cells, rows, chars = _cells_and_rows(data)
+        except MemoryError:
+            return True, {"class": label, "count": n, "input_bytes": len(data)}, "MemoryError"
+        except Exception as e:  # noqa
+            return False, {}, f"{type(e).__name__}"
+        if max(cells, rows) > 1000 * len(data) / 8 or chars > 1000 * len(data):
+            return True, {"class": label, "count": n, "input_bytes": len(data)}, f"{cells} cells / {rows} rows / {chars} characters materialised from {len(data)} input bytes"
+        return False, {}, f"{cells} cells / {rows} rows / {chars} characters from {len(data)} bytes"
+    order = [c for c in REPEAT_CLASSES if c[1] in known_for_obligation] + ([] if known_for_obligation else [c for c in REPEAT_CLASSES if c[1] is None or c[1] not in recorded])
+    last = "no class amplifies"
+    for label, _fid, build in order:
+        ok, inputs, obs = run(label, build, 3000000 if "text:" in label else 300000)
+        if ok:
+            return True, inputs, obs
+        last = obs
+    return False, {}, last
+
+
+def _recorded_findings():
+    import json
+    try:
+        kf = json.load(open(os.path.join(os.path.dirname(os.path.dirname(os.path.abspath(__file__))), "known_findings.json")))
+        return [f for f in kf.get("findings", []) if f.get("property") == "C12"]
+    except Exception:  # noqa
+        return []
+
+
+def native_scope(which):
+    """Directed native scopes that run on every check (BOUNDED obligations of the pack)."""
+    import sys as _sys
+    _sys.path.insert(0, os.path.dirname(os.path.abspath(__file__)))
+    import archive_probe
+    if which == "explicit-limits":
+        for fn in (limits_read_file, limits_7z, limit_values, archive_probe.oversize_members, member_boundary, tar_links, entry_limit):
+            r = fn()
+            if r is not None:
+                r["reproduced"] = True
+                return r
+        return {"reproduced": False, "note": "read_file / 7z / per-member / per-entry limits hold at their boundaries (files of 100, 5000, 70000 bytes, symlinks, "
+                                             "the 7z fixture, zip/tar layouts with oversize, same-name and link members)"}
+    if which == "repeat-attribute-classes":
+        rec = {f["id"] for f in _recorded_findings()}
+        ok, inputs, obs = repeat_classes(set(), rec)
+        if ok:
+            return {"reproduced": True, "target": "ods_extractor.py::read_ods", "inputs": inputs, "observed": obs,
+                    "expected": "cost bounded by a fixed multiple of the input size (document class not among the recorded findings)"}
+        return {"reproduced": False, "note": f"{sum(1 for c in REPEAT_CLASSES if c[1] is None or c[1] not in rec)} repeat-attribute document classes outside the recorded findings: none amplifies"}
+    return {"reproduced": False, "note": "unknown scope"}
+
+
 def find(req):
+    scope = (req.get("extra") or {}).get("scope") if isinstance(req.get("extra"), dict) else None
+    if not scope and "native-scope#" in (req.get("obligation") or ""):
+        scope = req["obligation"].split("native-scope#", 1)[1]
+    if scope:
+        return native_scope(scope)
     if req.get("known_finding"):
         ok, inputs, obs = finding(req["known_finding"])
         return {"reproduced": bool(ok), "inputs": inputs, "observed": obs,
                 "expected": "cost bounded by a fixed multiple of the input size / oversize members not decompressed"}
-    r = limits()
-    if r is not None:
-        r["reproduced"] = True
+    ob = req.get("obligation", "") or ""
+    funcs = ("read_file", "_extract_from_7z_optimized", "_extract_sheet", "_append_element_text", "_extract_from_zip_optimized", "_extract_from_tar_optimized",
+             "_process_archive_entry")
+    generic = (not ob) or ("out-of-subset" in ob and not any(f in ob for f in funcs))
+    import sys as _sys
+    _sys.path.insert(0, os.path.dirname(os.path.abspath(__file__)))
+    import archive_probe
+
+    def hit(r):
+        if r is not None:
+            r["reproduced"] = True
         return r
-    ob = req.get("obligation", "")
-    if "member-size-check" in ob or "out-of-subset" in ob or not ob:
-        import sys as _sys
-        _sys.path.insert(0, os.path.dirname(os.path.abspath(__file__)))
-        import archive_probe
-        r = archive_probe.oversize_members()
+
+    # ---- explicit limits
+    if generic or "read_file" in ob:
+        r = hit(limits_read_file())
+        if r:
+            return r
+    if generic or ("_extract_from_7z_optimized" in ob and "policy#" not in ob):
+        r = hit(limits_7z())
+        if r:
+            return r
+    if generic or "documented-values" in ob or "limits/" in ob:
+        r = hit(limit_values())
+        if r:
+            return r
+    # ---- per-member limits
+    if generic or "member-size-check" in ob or "_extract_from_zip_optimized" in ob or "_extract_from_tar_optimized" in ob:
+        r = archive_probe.oversize_members() or member_boundary()
         if r is not None:
             return r
+    if generic or "regular-members-only" in ob or "_extract_from_tar_optimized" in ob:
+        r = tar_links()
+        if r is not None:
+            return r
+    if generic or "_process_archive_entry" in ob:
+        r = entry_limit()
+        if r is not None:
+            return r
+    # ---- amplification
     for key, fn in AMPLIFIERS:
         if key in ob:
             ok, inputs, obs = fn()
@@ -271,20 +597,26 @@ def find(req):
                 return {"reproduced": True, "target": ob, "inputs": inputs, "observed": obs,
                         "expected": "work and output bounded by a fixed multiple of the input size"}
             return {"reproduced": False, "note": obs}
-    if "out-of-subset" in ob or not ob:
+    if generic:
         for key, fn in AMPLIFIERS:
             ok, inputs, obs = fn()
             if ok:
                 return {"reproduced": True, "target": key, "inputs": inputs, "observed": obs,
                         "expected": "work and output bounded by a fixed multiple of the input size"}
-    for fid, key in (("F11-cell-repeat", "amp-bounded#repeat-site"), ("F11-row-repeat", "amp-bounded#repeat-site"), ("F11-text-s", "_append_element_text/amp-bounded"),
-                     ("F12-7z-oversize-members-decompressed", "oversize-members-are-not-decompressed")):
-        if key in ob:
-            ok, inputs, obs = finding(fid)
-            if ok:
-                return {"reproduced": True, "target": ob, "inputs": inputs, "observed": obs,
-                        "expected": "cost bounded by a fixed multiple of the input size / oversize members not decompressed"}
-    return {"reproduced": False, "note": "explicit limits hold at their boundaries natively"}
+    if generic or "amp-bounded#repeat-site" in ob or "_extract_sheet" in ob or "_append_element_text" in ob:
+        rec = _recorded_findings()
+        mine = {f["id"] for f in rec if f.get("obligation") == ob}
+        ok, inputs, obs = repeat_classes(mine, {f["id"] for f in rec})
+        if ok:
+            return {"reproduced": True, "target": ob, "inputs": inputs, "observed": obs,
+                    "expected": "cost bounded by a fixed multiple of the input size"}
+        return {"reproduced": False, "note": obs}
+    if generic or "oversize-members-are-not-decompressed" in ob or ("_extract_from_7z_optimized" in ob and "out-of-subset" in ob):
+        ok, inputs, obs = finding("F12-7z-oversize-members-decompressed")
+        if ok:
+            return {"reproduced": True, "target": ob, "inputs": inputs, "observed": obs,
+                    "expected": "oversize members not decompressed"}
+    return {"reproduced": False, "note": "explicit limits hold at their boundaries natively; no amplifying input found in the directed classes"}
 
 
 def rerun(stored):
